@@ -157,24 +157,31 @@ def sweep(blocks, eval_block, acc: Acc = None, workers=None, label=""):
     workers = workers or boot.WORKERS
     _EVAL = eval_block
     if workers <= 1 or len(blocks) <= 1:
+        broken = []
         for i in order:
             st, blk, res = _worker(blocks[i])
             if st != "ok":
-                raise Broken(f"harness error in block {blk!r}:\n{res}")
+                broken.append((blk, res))
+                continue
             acc.merge(res)
+        _settle_broken(acc, broken)
         return acc
     ctx = mp.get_context("fork")
     # one task per worker process: every block starts from the parent's (pristine) module state, so a
     # block's verdict never depends on which blocks the same worker happened to run before
     t_start = time.time()
     done = 0
+    broken = []
     with ctx.Pool(workers, maxtasksperchild=1) as pool:
         for st, blk, res in pool.imap_unordered(
             _worker, [blocks[i] for i in order], chunksize=1
         ):
             if st != "ok":
-                pool.terminate()
-                raise Broken(f"harness error in block {blk!r}:\n{res}")
+                broken.append((blk, res))
+                if len(broken) > 8:
+                    pool.terminate()
+                    break
+                continue
             acc.merge(res)
             done += 1
             if acc.viol and time.time() - t_start > SLOW_STOP_S:
@@ -183,7 +190,22 @@ def sweep(blocks, eval_block, acc: Acc = None, workers=None, label=""):
                 pool.terminate()
                 acc.caps.append(f"sweep stopped after {done} of {len(blocks)} blocks: violations found and {SLOW_STOP_S:.0f} s exceeded")
                 break
+    _settle_broken(acc, broken)
     return acc
+
+
+def _settle_broken(acc, broken):
+    """A block whose harness crashed was not evaluated.  That alone is 'broken' (exit 2), never a violation; but
+    violations established (and replayed) in the blocks that did run stand, with the crashed blocks a stated cap."""
+    if not broken:
+        return
+    if not acc.viol:
+        blk, res = broken[0]
+        raise Broken(f"harness error in block {blk!r}:\n{res}")
+    for blk, res in broken:
+        last = res.strip().splitlines()[-1] if res.strip() else ""
+        acc.caps.append(f"block {blk!r:.80} not evaluated: harness crashed ({last:.120})")
+        print(f"HARNESS-ERROR (block not evaluated) {blk!r:.80}: {last:.160}", file=sys.stderr, flush=True)
 
 
 def replay_block(block):
